@@ -1,6 +1,6 @@
 import vlib
 
-THEORY = ["theories/Mesh/Pure.v", "theories/Mesh/PureProofs.v", "theories/Mesh/Case.v"]
+THEORY = ["theories/Mesh/Pure.v", "theories/Mesh/PureLemmas.v", "theories/Mesh/PureProofs.v", "theories/Mesh/Case.v", "theories/Mesh/PureLaws.v"]
 
 CFG = {
     "id": "C03", "harness": "c03",
@@ -24,7 +24,7 @@ CFG = {
     "technique": "Coq proof (induction over index lists / attribute maps / histories) + vm_compute correspondence and "
                  "contract check on the implementation's output",
     "design_ref": "DESIGN.md §3.2, §4 C03, §5 #2 #24 #25 #26",
-    "n_quick": 700, "n_thorough": 12000,
+    "n_quick": 1300, "n_thorough": 12000,
     "rule": "random well-formed meshes (6 topologies; 0-10 vertices; identity, permuted, repeated, sparse and empty index "
             "lists; 0-4 attributes of arity 1-4 incl. equal names in two arities and keys with empty arrays; duplicated "
             "vertex values; material ranges incl. empty and repeated ones), one of 27 operations per step (function, "
